@@ -1583,6 +1583,15 @@ func runC01(e *hk.Env) error {
 	ncases += nseq
 	e.Stats["time_sequence_cases"] = nseq
 
+	// 1d. histories with failing destination Writes followed by plain / nested / overlapping records (history.go)
+	{
+		nh := 250
+		if e.Thorough() {
+			nh = 5000
+		}
+		ncases += writeFailureHistories(e, nh)
+	}
+
 	// 2. random trees x chains x levels x source, handler level and logger level
 	g := &gen{e.Rng.Fork()}
 	depthHist := map[int]int{}
